@@ -47,3 +47,4 @@ open Bpmn.Props.C12 Bpmn.Props.EngineCurrent
 #print axioms Bpmn.Props.C12Turns.runOps_oneEach
 #print axioms Bpmn.Model.Engine.nextTurn_idle
 #print axioms Bpmn.Model.Engine.nextTurn_fst
+#print axioms Bpmn.Props.C12Turns.return_frees_node
